@@ -10,8 +10,11 @@ search : harness/c01_fuzz.c — mutational exploration of the 4 load + 4 test en
          ASan+UBSan build (thorough: also MSan); a sanitizer report is the violation, the case its replay
 """
 import os
+import random
 import re
+import shutil
 import vlib
+import synthmods
 
 LEVEL = "proof"
 MANIFEST = dict(
@@ -32,8 +35,15 @@ REQUIRED = ["Xmp.MixWindow.C01_window_forward", "Xmp.MixWindow.C01_window_revers
             "Xmp.MixWindow.C01_iterations"]
 
 
-def fuzz_files(ck, maxsize):
-    return [f for f in vlib.corpus_files() if os.path.getsize(f) <= maxsize]
+def fuzz_files(ck, maxsize, nsynth):
+    """Corpus files plus structure-aware synthetic modules (boundary-valued parameters) written for this seed;
+    the synthetic ones are listed three times so that about a third of the cases start from them."""
+    files = [f for f in vlib.corpus_files() if os.path.getsize(f) <= maxsize]
+    d = os.path.join(vlib.OUT, "c01", "syn-%d" % ck.seed)
+    shutil.rmtree(d, ignore_errors=True)
+    syn = synthmods.write_set(random.Random(ck.seed * 7919 + 5), d, nsynth)
+    k = max(1, len(files) // (2 * max(1, len(syn))))
+    return files + syn * k
 
 
 def run_fuzz_shard(args):
@@ -117,7 +127,8 @@ def run(ck):
 
     # ---- search: sanitized mutational exploration -----------------------------------------
     variants = ["asan"] if quick else ["asan", "msan"]
-    files = fuzz_files(ck, 250000 if quick else 1500000)
+    files = fuzz_files(ck, 250000 if quick else 1500000, 150 if quick else 1500)
+    ck.note("synthetic_modules", len([f for f in set(files) if "/syn-" in f]))
     ncases = 0
     kinds = {}
     for variant in variants:
